@@ -77,21 +77,22 @@ _FUNCTION_PROPERTY = {
 
 # functions a property reads although they are listed with another one (a function can matter to several properties)
 EXTRA_FUNCTIONS = {
+    "C01": ["SyncState.updated", "SyncManager.upload_synced", "SyncState.finished", "SyncState.unconditionally_get_latest"],
     "C02": ["SmartCloudSync._sync_one_entry", "SmartCloudSync._smart_unsync_ent", "SideState.__setattr__", "SyncManager.make_temp_file", "SyncManager.download_changed", "SyncManager.upload_synced"],
     "C03": ["SyncState.change", "SyncState.unconditionally_get_latest", "SyncManager.sync"],
-    "C04": ["SyncState._change_oid", "SyncEntry.is_deletion", "SyncEntry.is_creation", "SyncState.update", "SyncManager._get_parent_conflict", "SyncManager._get_child_conflict"],
+    "C04": ["EventManager._process_event", "SyncState._change_oid", "SyncEntry.is_deletion", "SyncEntry.is_creation", "SyncState.update", "SyncManager._get_parent_conflict", "SyncManager._get_child_conflict"],
     "C05": ["SyncManager.make_temp_file", "SyncManager.download_changed"],
     "C16": ["Provider.is_subpath", "Provider.replace_path"],
     "C17": ["SyncManager.handle_hash_diff", "SmartSyncState.__init__"],
     "C06": ["SyncEntry.is_trash", "EventManager._validate_root", "EventManager._save_current_cursor", "EventManager._do_first_init", "EventManager._do_walk_if_needed", "EventManager._forget_walk_marker",
             "EventManager._process_event"],
-    "C07": ["SyncManager.path_conflict", "EventManager._do_first_init", "EventManager._save_current_cursor", "SyncManager._sync_one_entry", "SyncState._storage_update",
+    "C07": ["SyncManager.handle_split_conflict", "SyncManager.check_disjoint_create", "SyncState.__init__", "SyncManager.path_conflict", "EventManager._do_first_init", "EventManager._save_current_cursor", "SyncManager._sync_one_entry", "SyncState._storage_update",
             "SyncState.storage_commit", "SyncManager.finished"],
-    "C10": ["CloudSync.__init__", "CloudSync.authenticate", "Runnable.__increment_backoff", "Runnable.backoff", "Runnable.run", "SyncManager.handle_file_name_error"],
+    "C10": ["SyncManager.handle_hash_conflict", "EventManager.do", "CloudSync.__init__", "CloudSync.authenticate", "Runnable.__increment_backoff", "Runnable.backoff", "Runnable.run", "SyncManager.handle_file_name_error"],
     "C11": ["CloudSync.forget", "SyncEntry.__setitem__", "SyncState.forget", "SyncState.updated", "SyncState.update"],
     "C12": ["EventManager._process_event", "SyncManager.embrace_change"],
     "C13": ["CloudSync.translate", "Provider.is_subpath_of_root"],
-    "C14": ["SyncManager._handle_dir_delete_not_empty", "EventManager.queue", "SyncManager.do", "Provider._walk", "Provider.walk", "Provider.walk_oid", "EventManager._do_walk_if_needed"],
+    "C14": ["SyncManager.check_disjoint_create", "SyncState._change_path", "SyncState._change_oid", "SyncManager._handle_dir_delete_not_empty", "EventManager.queue", "SyncManager.do", "Provider._walk", "Provider.walk", "Provider.walk_oid", "EventManager._do_walk_if_needed"],
     "C08": ["SqliteStorage.delete", "SqliteStorage.update", "SqliteStorage.create", "SqliteStorage.read_all", "EventManager._process_event"],
     "C15": ["CloudSync.forget", "SyncManager.do", "EventManager._do_unsafe", "SyncState.changes", "NotificationManager.__init__", "NotificationManager.notify"],
     "C20": ["SmartSyncState._changeset", "SyncManager._sync_one_entry", "SyncManager.sync", "SyncManager.pre_sync"],
@@ -549,7 +550,7 @@ def _return_sites(w, v, at, pre):
 def _val_text(w, e, at) -> str:
     """a value (an argument, what is stored, what is returned) in the name-independent spelling of the atoms"""
     try:
-        return _generalise(ast.unparse(w.nm.expr(e, at=at)))
+        return _generalise(ast.unparse(_Slots().visit(w.nm.expr(e, at=at))))
     except Exception:
         return "<?>"
 
@@ -638,6 +639,11 @@ def _sites_of(w, node, at):
                     else:
                         if isinstance(st, ast.Assign) and isinstance(st.value, ast.BinOp) and ast.unparse(st.value.left) == ast.unparse(tg):
                             _note_value(w, shape, "%s= " % type(st.value.op).__name__ + _val_text(w, st.value.right, st))      # `x = x + 1` is `x += 1`
+                        elif isinstance(st, ast.Assign) and isinstance(tg, ast.Attribute) and not any(isinstance(x, ast.Call) for x in ast.walk(tg)):
+                            # target and value are named together, so that `a[s].x = a[s].y` and `a[s].x = b[s].y` differ
+                            pair = ast.Tuple(elts=[tg.value, st.value], ctx=ast.Load())
+                            pair = _Slots().visit(ast.parse(ast.unparse(pair), mode="eval").body)
+                            _note_value(w, shape, _val_text(w, pair, st))
                         else:
                             _note_value(w, shape, ("%s= " % type(st.op).__name__ if isinstance(st, ast.AugAssign) else "") + _val_text(w, st.value, st))
     return out
@@ -732,6 +738,8 @@ def function_shapes(ctx: Ctx, spec: str):
             base = base.value
         if isinstance(it, ast.Attribute) and isinstance(base, ast.Name) and base.id == "self":
             its.append("%s(%s)" % (wrap or "live", ast.unparse(it)))
+        elif isinstance(it, (ast.Tuple, ast.List)) and it.elts and all(isinstance(e, ast.Constant) and isinstance(e.value, str) for e in it.elts):
+            vals.setdefault("<field-loops>", []).append("const(%s)" % ", ".join(sorted(repr(e.value) for e in it.elts)))      # the field names a loop goes through
     if its:
         vals["<iterates>"] = its
     _VALUES[spec] = {k: sorted(v) for k, v in vals.items()}
@@ -967,6 +975,11 @@ def decision_table(ctx: Ctx, rep: Report, rid: str, functions=None, shapes: str 
                 bad = []
                 for sh, old_vals in sorted(values_old["values"].items()):
                     cur_vals = now.get(sh)
+                    if sh == "<field-loops>" and not set(old_vals) <= set(cur_vals or []):
+                        bad.append((sh, [v for v in old_vals if v not in (cur_vals or [])], [v for v in (cur_vals or []) if v not in old_vals]))
+                        continue
+                    if sh == "<field-loops>":
+                        continue
                     if sh == "<decorators>" and sorted(cur_vals or []) != sorted(old_vals):
                         bad.append((sh, [v for v in old_vals if v not in (cur_vals or [])], [v for v in (cur_vals or []) if v not in old_vals]))
                         continue
